@@ -103,6 +103,26 @@ def _check_call(h, fam, c, theta0, S, d, tag=""):
         h.close(back[i], c["result"][i], tag + "result-round-trip", rtol=1e-9)
 
 
+def _closed_form(h, fam, d, theta0, S, data, tag=""):
+    """an estimator that does not call scipy's optimiser is judged against the closed-form (conditional) MLE, which
+    exists for the normal and the log-normal family: mu_hat = mean(t), sigma_hat^2 = mean((t - mu_used)^2) with
+    t = x resp. log x and a fixed parameter kept at its value.  Returns False if the family has no closed form."""
+    if fam.cls not in ("NormalDistribution", "LogNormalDistribution"):
+        return False
+    n = len(data)
+    t = [data[i] if fam.cls == "NormalDistribution" else np.log(data[i]) for i in range(n)]
+    mu = theta0["mu"] if "mu" in S else sum(t) / n
+    h.close(d.mu, mu, tag + "closed-form-location-is-the-(conditional)-mle", rtol=1e-9)
+    if "sigma" in S:
+        h.close(d.sigma, theta0["sigma"], tag + "closed-form-keeps-fixed-sigma")
+    else:
+        var = sum((ti - mu) ** 2 for ti in t) / n
+        h.close(d.sigma * d.sigma, var, tag + "closed-form-sigma-is-the-(conditional)-mle-about-the-location-in-force",
+                rtol=1e-9)
+        h.check(d.sigma >= 0, tag + "sigma-nonnegative")
+    return True
+
+
 def h_sequence(h):
     """history: fit instance A (fixed set SA), then a fresh instance B (fixed set SB) - B's fit is B's own"""
     fam = FAMILIES[h.cfg["family"]]
@@ -122,6 +142,8 @@ def h_sequence(h):
     data = h.reals("d", h.cfg["n"], 2.5, 8.0)  # inside the support for every admissible location
     for tag, S, d, theta0 in objs:
         log = _fit_and_log(h, fam, d, data, "mle")
+        if len(log) == 0 and _closed_form(h, fam, d, theta0, S, data, tag=f"{tag}:"):
+            continue
         h.check(len(log) == 1, "scipy-fit-called-once")
         _check_call(h, fam, log[0], theta0, S, d, tag=f"{tag}:")
     h.reach()
@@ -154,6 +176,8 @@ def h_plumbing(h):
         for c in log:
             c["fx"] = _fixed_slots(fam.scipy, c["kw"])
     h.reach()
+    if len(log) == 0 and _closed_form(h, fam, d, theta0, S, data):
+        return
     h.check(len(log) == 1, "scipy-fit-called-once", "the estimator must run scipy's optimiser exactly once")
     c = log[0]
     _check_call(h, fam, c, theta0, S, d)
